@@ -82,6 +82,7 @@ structure HeapE where
   date : Rat
   lat : Bool := false
   rem : Rat := 0
+  full : Bool := false   -- action of a model updated with the FULL algorithm (disk): no heap, no precision window
   deriving Repr, Inhabited
 
 inductive Cb where
@@ -333,7 +334,7 @@ def K.handle (now : Rat) (k : K) (a : Nat) (r : Req) : K :=
     -- ExecImpl::start / IoImpl::start / CommImpl::start: model action created, state RUNNING, start time = now
     let (k, i) := k.newImpl { kind := kind, st := .running, act := .started, start := now, owners := [a] }
     let e : HeapE := if kind == .comm then { impl := i, date := now + linkLat, lat := true, rem := d - linkLat }
-                     else { impl := i, date := now + d }
+                     else { impl := i, date := now + d, full := kind == .io }
     let k := { k with heap := k.heap ++ [e] }
     (k.setActor a (fun x => x.setSlot slot i .started)).answer a
   | .iget slot q =>
@@ -603,28 +604,32 @@ def timeDelta (now : Rat) (tnext top : Option Rat) : Option Rat :=
       | some d => if n < d then some n else some d
     else d0
 
-/-- `Cpu/NetworkCm02Model::update_actions_state_lazy(now)`:
-`while (not heap.empty() && double_equals(heap.top_date(), now, sg_precision_timing)) { pop; … }`.
-The order in which entries of the precision window are popped (heap order among equal dates, order of the models)
-is a CHOICE.  A latency entry is re-armed (`relist`) with the date `now + rem`; a normal entry finishes:
-`action->finish(FINISHED)` moves it to the finished set. -/
+/-- is this action completed (or its latency paid) by `update_actions_state(now)`?
+* LAZY models (cpu, network — `Cpu/NetworkCm02Model::update_actions_state_lazy`):
+  `while (not heap.empty() && double_equals(heap.top_date(), now, sg_precision_timing)) { pop; … }`
+  i.e. every entry within the timing precision of `now` (entries are never in the past: `heap_dates_future`).
+* FULL model (disk — `DiskS19Model::update_actions_state`): `update_remains(rint(rate * delta)); if (remains <= 0) finish`
+  i.e. exactly when the whole duration has elapsed: no precision window. -/
+def HeapE.due (e : HeapE) (now : Rat) : Bool := if e.full then e.date ≤ now else dblEq e.date now prec
+
+/-- `model->update_actions_state(now_, delta)` for every model.  The order in which the due actions are finished
+(heap order among equal dates, order of the models, order of the started set) is a CHOICE.  A latency entry is
+re-armed (`relist`) with the date `now + rem`; a normal entry finishes: `action->finish(FINISHED)` moves it to the
+finished set. -/
 def popWindow : Nat → St → List HeapE → St × List HeapE
   | 0, s, re => (s, re)
   | n+1, s, re =>
-    match minDate (s.k.heap.map (·.date)) with
-    | none => (s, re)
-    | some top =>
-      if !dblEq top s.now prec then (s, re) else
-      let idx := (List.range s.k.heap.length).filter (fun j => dblEq (s.k.heap.getD j default).date s.now prec)
-      let (c, s) := pick idx.length s
-      let j := idx.getD c 0
-      let e := s.k.heap.getD j default
-      let k := { s.k with heap := removeNth s.k.heap j }
-      if e.lat then
-        popWindow n { s with k := k } (re ++ [{ e with lat := false, date := s.now + e.rem }])
-      else
-        let k := { k.setImpl e.impl (fun x => { x with act := .finished }) with doneQ := k.doneQ ++ [e.impl] }
-        popWindow n { s with k := k } re
+    let idx := (List.range s.k.heap.length).filter (fun j => (s.k.heap.getD j default).due s.now)
+    if idx.isEmpty then (s, re) else
+    let (c, s) := pick idx.length s
+    let j := idx.getD c 0
+    let e := s.k.heap.getD j default
+    let k := { s.k with heap := removeNth s.k.heap j }
+    if e.lat then
+      popWindow n { s with k := k } (re ++ [{ e with lat := false, date := s.now + e.rem }])
+    else
+      let k := { k.setImpl e.impl (fun x => { x with act := .finished }) with doneQ := k.doneQ ++ [e.impl] }
+      popWindow n { s with k := k } re
 
 /-- timer callbacks -/
 def K.fire (k : K) (t : Timer) : K :=
